@@ -39,6 +39,9 @@ def std_types(V, roles, nft):
 
 def gen_case(rng, tag, forced_roles=None):
     n0, f = tissue.icosphere(2)
+    junction = forced_roles is not None and forced_roles[0] == "JUNCTION"     # three cells around a common junction, one face type each
+    if junction:
+        forced_roles = forced_roles[1:]
     nc = rng.randint(2, 6) if forced_roles is None else len(forced_roles)
     V = abs(tissue.signed_volume([[x * R for x in p] for p in n0], f))
     roles = [rng.choice(["normal", "normal", "divide0", "divide_later", "remove0", "remove_later", "lumen"]) for _ in range(nc)] if forced_roles is None else list(forced_roles)
@@ -48,13 +51,15 @@ def gen_case(rng, tag, forced_roles=None):
         roles[rng.randrange(nc)] = rng.choice(["remove0", "remove_later"])
     if forced_roles is None and not any(r.startswith("divide") for r in roles) and rng.random() < 0.7:
         roles[rng.randrange(nc)] = rng.choice(["divide0", "divide_later"])
-    nft = [rng.choice([3, 3, 3, 2, 1]) for _ in range(nc)]
+    nft = [rng.choice([3, 3, 3, 2, 1]) for _ in range(nc)] if not junction else [1] * nc
     cts = std_types(V, roles, nft)
     gap = rng.choice([2.05, 2.2, 3.0]) if forced_roles is None else 2.05      # touching / near / apart (in radii between centres)
     cells = []
     for i in range(nc):
         M = tissue.rnd_rot(rng)
         pos = (i * gap * R, (i % 2) * 0.3 * R, 0.0) if (rng.random() < 0.7 or forced_roles is not None) else ((i % 3) * gap * R, (i // 3) * gap * R, 0.0)
+        if junction:
+            pos = (gap * R * math.cos(2 * math.pi * i / 3) / math.sqrt(3), gap * R * math.sin(2 * math.pi * i / 3) / math.sqrt(3), 0.0)
         cells.append((i, tissue.transform(n0, M, pos, (R, R, R)), f))
     niter = rng.choice([12, 16, 22])
     evs = []
@@ -67,7 +72,7 @@ def gen_case(rng, tag, forced_roles=None):
             # the two daughters adhere along the division interface; the one at list position 0 / 1 is shrunk below the minimum
             # volume (0.5 V * 0.8^3 = 0.26 V < 0.3 V) while still within the adhesion range of its sister
             evs.append((rng.choice([3, 6, 7]), 0 if r == "pair0" else 1, 0.8))
-    p = tissue.params(dt=1e-7, damping=5e-10, T=1.0, S=1.0, lmin=7.5e-7, cut_adh=5e-7, cut_rep=5e-7, swap=0)
+    p = tissue.params(dt=1e-7, damping=5e-10, T=1.0, S=1.0, lmin=7.5e-7, cut_adh=5e-7 if not junction else 2e-6, cut_rep=5e-7, swap=0)
     line = tissue.fmt_tissue(p, cts, cells) + " RUN %d 1 %d 0 %s %d %s" % (niter, rng.randrange(10 ** 6), tag, len(evs), " ".join("%d %d %s" % (a, b, hx(c)) for a, b, c in evs))
     return dict(line=line, roles=roles, nft=nft, evs=evs, niter=niter, incoming_ids=rng.random() < 0.5)
 
@@ -114,8 +119,13 @@ def run(ck):
     # first: populations that shrink to a single, still coupled survivor (at list position 0 and at position 1), and to a pair
     # ... and iterations in which as many cells divide as are removed (the list keeps its length while every position changes)
     forced = [("pair0",), ("pair1",), ("normal", "remove_later"), ("remove_later", "normal", "remove_later"),
-              ("divide0", "remove0", "normal"), ("remove0", "normal", "divide0", "normal"), ("divide0", "divide0", "remove0", "normal", "remove0")]
-    cases = [gen_case(rng, "c08_f%d" % i, forced_roles=fr) for i, fr in enumerate(forced)] + [gen_case(rng, "c08_%d" % i) for i in range(ncase)]
+              ("divide0", "remove0", "normal"), ("remove0", "normal", "divide0", "normal"), ("divide0", "divide0", "remove0", "normal", "remove0"),
+              # several divisions in one iteration with undivided cells between and after the mothers
+              ("divide0", "normal", "divide0", "normal"), ("normal", "divide0", "normal", "normal", "divide0"), ("divide0", "normal", "normal", "divide0"),
+              # three cells of one face type each around a junction, within adhesion range of both neighbours (faces coupled to two partners)
+              ("JUNCTION", "normal", "normal", "normal"), ("JUNCTION", "normal", "remove_later", "normal")]
+    rng_f = random.Random(ck.seed * 8111 + 9)       # its own stream: adding a forced case does not change the random ones
+    cases = [gen_case(rng_f, "c08_f%d" % i, forced_roles=fr) for i, fr in enumerate(forced)] + [gen_case(rng, "c08_%d" % i) for i in range(ncase)]
     # run in parallel processes (each history is independent)
     from concurrent.futures import ThreadPoolExecutor
     def one(c):
@@ -125,7 +135,7 @@ def run(ck):
             env = {"OMP_NUM_THREADS": "1"}
             if c.get("incoming_ids"):
                 env["VERIF_INCOMING_IDS"] = "1"
-            p = vlib.run([impl], input=c["line"] + "\n", timeout=900, env=env)
+            p = vlib.run([impl], input=c["line"] + "\n", timeout=300, env=env)
             return p.returncode, p.stdout, p.stderr[-800:]
         except Exception as e:
             return -999, "", str(e)
